@@ -192,7 +192,7 @@ func runC05(rc *RunCtx) {
 	keys := genKeys(G, 1+G.Draw(3), "")
 	mu := &RecMetrics{}
 	usrv := startUDPServer(rc, w, udpServerOpts{Keys: keys, Timeout: 5 * time.Minute, Metrics: mu})
-	tsrv := startTCPServer(rc, w, tcpServerOpts{Keys: keys, Timeout: time.Second})
+	tsrv := startTCPServer(rc, w, tcpServerOpts{Keys: keys, Timeout: time.Second, Debug: rc.F.Draw(3) == 1})
 	nU := 1 + G.Draw(10)
 	nT := G.Draw(6)
 	var dests []c05dest
